@@ -141,6 +141,19 @@ static void dec_dump(const char *method, const uint8_t *in, size_t n)
 	fprintf(f, "\n");
 }
 
+/* A second decoder of the same method (fed the same stream, offset in time) is kept alive and read in between on every
+ * 4th case: decoder instances must not share state. */
+static vin_t VIN2;
+static size_t vin2_cb(void *buf, size_t len, void *u)
+{
+	vin_t *v = (vin_t *) u;
+	size_t k = v->n - v->pos;
+	if (k > len) k = len;
+	memcpy(buf, v->p + v->pos, k);
+	v->pos += k;
+	return k;
+}
+
 /* decode 'in' with declared length = elen and require exactly 'exp'.  Returns 1 when equal. */
 static int dec_expect(const char *site, const char *method, const uint8_t *in, size_t n,
                       const uint8_t *exp, size_t elen, int chunk)
@@ -150,6 +163,38 @@ static int dec_expect(const char *site, const char *method, const uint8_t *in, s
 	uint8_t *out = malloc(elen + 2);
 	size_t got;
 	dec_dump(method, in, n);
+	if ((VF.index & 3) == 0 && elen > 1) {
+		LHADecoderType *dt = lha_decoder_for_name((char *) method);
+		LHADecoder *d1, *d2;
+		uint8_t o2[64];
+		size_t want2 = elen < sizeof o2 ? elen : sizeof o2, l2 = 0, g, tot = 0;
+		VIN.p = in; VIN.n = n; VIN.pos = 0; VIN.chunk = 0;
+		VIN2.p = in; VIN2.n = n; VIN2.pos = 0;
+		d1 = lha_decoder_new(dt, vin_cb, &VIN, elen);
+		d2 = lha_decoder_new(dt, vin2_cb, &VIN2, want2);
+		if (d1 && d2) {
+			/* the first decoder runs ahead by a few bytes, then both alternate */
+			tot += lha_decoder_read(d1, out, elen > 3 ? 3 : 1);
+			for (;;) {
+				if (l2 < want2) l2 += lha_decoder_read(d2, o2 + l2, 5 < want2 - l2 ? 5 : want2 - l2);
+				g = lha_decoder_read(d1, out + tot, 61 < elen + 1 - tot ? 61 : elen + 1 - tot);
+				tot += g;
+				if (g == 0 || tot > elen) break;
+			}
+			while (l2 < want2) { g = lha_decoder_read(d2, o2 + l2, want2 - l2); if (!g) break; l2 += g; }
+			if (tot != elen || memcmp(out, exp, elen) || l2 != want2 || memcmp(o2, exp, want2))
+				vf_viol("decoder-instance-interference", "method=%s in=%s: two live decoders of the same method disturb each other (%zu of %zu and %zu of %zu bytes correct in length)", method, vf_hex(in, n), tot, elen, l2, want2);
+		}
+		if (d1) lha_decoder_free(d1);
+		if (d2) lha_decoder_free(d2);
+	}
+	/* input delivered in pieces of 1..3 bytes: a legal answer of the input callback for the bit-reader decoders */
+	if ((VF.index & 3) == 1 && elen > 0 && strcmp(method, "-lz5-") && strcmp(method, "-lh0-") && strcmp(method, "-lz4-") && strcmp(method, "-pm0-")) {
+		dec_result rc;
+		size_t gc = dec_run(method, in, n, elen, out, 0, 1 + (int) ((VF.index >> 2) % 3), &rc);
+		if (gc != elen || memcmp(out, exp, elen))
+			vf_viol("decoder-input-chunking", "method=%s in=%s: output differs when the input callback delivers at most %d bytes per call (%zu of %zu bytes)", method, vf_hex(in, n), 1 + (int) ((VF.index >> 2) % 3), gc, elen);
+	}
 	got = dec_run(method, in, n, elen, out, 0, chunk, &r);
 	int ok = 1;
 	if (!r.created) {
